@@ -43,7 +43,8 @@ def canon_settings(s) -> dict:
                 enable_all=s.enable_all, disable_all=s.disable_all, config_file=s.config_file,
                 python_version=None if s.python_version is None else tuple(s.python_version),
                 mypy_args=[str(x) for x in s.mypy_args], format=s.format, sort_by=s.sort_by, verbose=s.verbose,
-                timing_stats=None if s.timing_stats is None else str(s.timing_stats), color=s.color)
+                timing_stats=None if s.timing_stats is None else ("" if str(s.timing_stats) == "." else str(s.timing_stats)),   # Path("") prints as "."; the model keeps the argument text
+                color=s.color)
 
 
 def real_call(fn, *args):
@@ -137,6 +138,25 @@ def gen_argv(rng) -> list[str]:
         else:
             out.append(rng.choice(FILES if rng.random() < 0.4 else FILES[:3]))
     return out
+
+
+def _strs(v) -> bool:
+    # list elements are read through str() on purpose (`enable = [100]` is `--enable 100`): only the container type is fixed
+    return isinstance(v, list)
+
+
+def _bool(v) -> bool:
+    return isinstance(v, bool)
+
+
+def _str(v) -> bool:
+    return isinstance(v, str)
+
+
+FIELD_TYPES = {"enable": _strs, "disable": _strs, "ignore": _strs, "load": _strs, "mypy_args": _strs, "quiet": _bool, "disable_all": _bool, "enable_all": _bool,
+               "python_version": _str, "format": _str, "sort_by": _str, "amend": lambda v: isinstance(v, list) and all(isinstance(x, dict) for x in v)}
+FIELD_DOC = {"enable": "list", "disable": "list", "ignore": "list", "load": "list", "mypy_args": "list", "quiet": "boolean",
+             "disable_all": "boolean", "enable_all": "boolean", "python_version": "string", "format": "string", "sort_by": "string", "amend": "list of tables"}
 
 
 def toml_text(v, top=True) -> str:
@@ -288,6 +308,13 @@ def run(ctx: Ctx) -> None:
     for (d, t), r in zip(docs, cfg_real):
         ctx.case(("toml", t), nontrivial=len(t) > 8, sample={"toml": t, "result": r[0]} if rng.random() < 0.003 else None)
         ctx.count("toml:" + r[0])
+        tbl = d.get("tool", {}).get("refurb") if isinstance(d.get("tool"), dict) else None
+        if r[0] == "ok" and isinstance(tbl, dict):
+            # the documented type of every field (README, "Configuring Refurb"): a value of another TOML type is malformed
+            for fld, ty in FIELD_TYPES.items():
+                if fld in tbl and not ty(tbl[fld]):
+                    ctx.report(f"ill-typed-accepted:{fld}", f"[tool.refurb] {fld} = {toml_text(tbl[fld], False)} is accepted although {fld} must be a {FIELD_DOC[fld]}",
+                               {"toml": t, "field": fld, "value": repr(tbl[fld]), "parsed": str(r[1])[:300]})
         if r[0] == "Crash":
             where = "tool" if not isinstance(d.get("tool"), dict) else "tool.refurb" if not isinstance(d["tool"].get("refurb"), dict) else "field"
             ctx.report(f"config-crash:{r[1].split(':')[0]}:{where}", f"parse_config_file raises {r[1]} on {t!r}", {"toml": t, "exception": r[1]})
@@ -386,6 +413,8 @@ def oracles(ctx: Ctx) -> None:
         c = real_call(parse_config_file, toml_text({"tool": {"refurb": table}}))
         ctx.case(("equiv", tuple(argv + tail)), nontrivial=bool(argv))
         ctx.count("cli-vs-config")
+        if not (argv + tail):
+            continue          # no arguments at all means "print the usage" on the command line; there is no config spelling of that
         if a != c:
             diff = [k for k in a[1] if a[0] == c[0] == "ok" and a[1][k] != c[1][k]] if a[0] == c[0] == "ok" else [a[0], c[0]]
             ctx.report("cli-config-differ:" + ",".join(map(str, diff[:3])), f"`{' '.join(argv + tail)}` and the same options in [tool.refurb] give different settings ({diff})",
